@@ -32,7 +32,7 @@ Oracle    : parse returns within 3 CPU-seconds (typical 0.5 ms; re-confirmed wit
             escapes; the result is None or a CompletionContext with a command and/or python part; for a
             CommandContext text[:cursor] ends with opening_quote+prefix (+closing_quote when
             is_after_closing_quote) and text[cursor:] starts with suffix - on the text as it stands or with
-            backslash-newline continuations removed on either side; the quote fields have their documented shape
+            backslash-newline continuations (any subset of them) removed on either side; the quote fields have their documented shape
             (opening_quote = prefix letters + quote, closing_quote empty or that quote); 0 <= arg_index <= len(args);
             for a PythonContext multiline_code[:cursor_index] is a suffix of text[:cursor].  One parser object is
             reused like the shell does; a failure is re-confirmed on a second parser instance.
@@ -155,8 +155,9 @@ def typed_selfcheck(typed, style, chars):
 # Part A: known findings (narrow predicates) and shapes excluded from generation while they are open
 
 def _has_ctrl_completer(s):
-    # the control characters the completer switches to a non-raw string for
-    return any(c in s for c in "\n\t\r\x0c\x0b")
+    # the characters the completer switches to a non-raw string for (path._CONTROL_CHAR_ESCAPE): \n \t \r \f \v and,
+    # since the repair of C18-F18, the other line boundaries of str.splitlines()
+    return any(c in s for c in "\n\t\r\x0c\x0b" + LINEBREAKS)
 
 
 def _quote_in_use(style, relpath):
@@ -195,7 +196,7 @@ def shape_of(name, isdir, relpath, style="none"):
     if (user_raw or (("\\" in relpath or "$" in relpath) and not _has_ctrl_completer(relpath))) \
             and _quote_in_use(style, relpath) in relpath:
         out.add("C18-F3")
-    if user_raw and (_has_ctrl_completer(relpath) or any(c in relpath for c in LINEBREAKS)):
+    if user_raw and _has_ctrl_completer(relpath):
         out.add("C18-F12")
     if style in ("tsq", "tdq") and not isdir and relpath.endswith(STYLES[style][1][0]):
         out.add("C18-F13")
@@ -398,7 +399,8 @@ def _classify_a(case, info, cand, got, kind):
     C18-F13 triple quote opened by the user, file name ending in that quote character: four quotes in a row
     C18-F14 `./` `../` (and the r'~' candidate for an entry named ~) ignore the opened quote: with the closing quote
             after the cursor a stray quote is left
-    C18-F15 name with `$NAME` of a defined variable and a control character: written as a non-raw string, expanded
+    C18-F15 name with `$NAME` of a defined variable and a character the completer escapes (newline/tab/CR/FF/VT and, since
+            the repair of C18-F18, \\x1c \\x1d \\x1e \\x85 \\u2028 \\u2029): written as a non-raw string, expanded
     C18-F16 bare candidate starting with `=` `-=` `+=` `%=` `^=` `@=` `:`: the completed line is a Python statement
     C18-F17 name with `=` and a tilde-prefix at the start / after `=` / after `:` written bare or non-raw: expanded
     C18-F20 still-open quote whose typed content holds a command separator or sub-expression opener: the analyser
@@ -927,8 +929,34 @@ def _parser(second=False):
     return _PB[key]
 
 
-def strip_cont(s):
-    return s.replace("\\\n", "")
+def starts_mod_cont(text, want, pair="\\\n"):
+    """text starts with want when ANY subset of the backslash-newline pairs is removed on either side.  (The
+    analyser removes the continuations between and inside plain words and strings but keeps a backslash-newline
+    that the tokenizer hands out as string content - e.g. at the end of an unterminated f-string - and it
+    reports sub-expression arguments as they stand: one text can hold removed and kept pairs side by side.)"""
+    n, m = len(text), len(want)
+    seen = set()
+    todo = [(0, 0)]
+    while todo:
+        i, j = todo.pop()
+        while (i, j) not in seen:
+            if j == m:
+                return True
+            seen.add((i, j))
+            if text.startswith(pair, i):
+                todo.append((i + 2, j))
+            if want.startswith(pair, j):
+                todo.append((i, j + 2))
+            if i < n and text[i] == want[j]:
+                i, j = i + 1, j + 1
+            else:
+                break
+    return False
+
+
+def ends_mod_cont(text, want):
+    """Mirror image of starts_mod_cont for the text before the cursor."""
+    return starts_mod_cont(text[::-1], want[::-1], pair="\n\\")
 
 
 class _Hang(BaseException):
@@ -1006,24 +1034,23 @@ def analyse(parser, text, cursor, bound=HANG_S):
                 "after": c.is_after_closing_quote}
         # Continuations: the parser removes backslash-newline from simple arguments but reports sub-expression
         # arguments (`$(..)`, `@(..)`) as they stand in the text, and a backslash-newline inside a comment is no
-        # continuation at all.  Accepted: the comparison holds on the text as it stands OR with continuations
-        # removed on both sides.
+        # continuation at all; nor is the backslash-newline that ends an unterminated f-string (string content).
+        # Accepted: the comparison holds on the text as it stands OR with any subset of the backslash-newline
+        # pairs removed on either side (starts_mod_cont / ends_mod_cont).
         raw_before, raw_after = text[:cursor], text[cursor:]
         raw_want = c.opening_quote + c.prefix + (c.closing_quote if c.is_after_closing_quote else "")
         inside_cont = raw_before.endswith("\\") and raw_after[:1] == "\n"
-        ok = raw_before.endswith(raw_want) or strip_cont(raw_before).endswith(strip_cont(raw_want)) \
-            or strip_cont(raw_before).endswith(raw_want)
+        ok = raw_before.endswith(raw_want) or ends_mod_cont(raw_before, raw_want)
         if not ok and inside_cont:
             # a cursor between the backslash and the newline of a continuation: also accept the reading in
             # which the whole continuation is removed
-            ok = strip_cont(raw_before + "\n").endswith(strip_cont(raw_want))
+            ok = ends_mod_cont(raw_before[:-1], raw_want)
         if not ok:
             return "prefix", "parse(%r, %d): text before the cursor %r does not end with opening_quote+prefix%s %r (%r)" % (
                 text, cursor, raw_before, "+closing_quote" if c.is_after_closing_quote else "", raw_want, c), info
-        ok = raw_after.startswith(c.suffix) or strip_cont(raw_after).startswith(strip_cont(c.suffix)) \
-            or strip_cont(raw_after).startswith(c.suffix)
+        ok = raw_after.startswith(c.suffix) or starts_mod_cont(raw_after, c.suffix)
         if not ok and inside_cont:
-            ok = strip_cont("\\" + raw_after).startswith(strip_cont(c.suffix))
+            ok = starts_mod_cont(raw_after[1:], c.suffix)
         if not ok:
             return "suffix", "parse(%r, %d): text after the cursor %r does not start with suffix %r (%r)" % (
                 text, cursor, raw_after, c.suffix, c), info
@@ -1067,8 +1094,9 @@ def _classify_b(text, cursor, kind, info):
             character from behind the continuation
     C18-F9  cursor inside the closing triple quote of a closed string (after its 1st or 2nd character): reported as
             if it stood inside the string value
-    C18-F23 the word `async` directly followed by a character the tokenizer reports as an error token (backquote, NUL,
-            control character ...): the two tokens come out in swapped order
+    C18-F23 the word `async` followed - directly or after blanks / tabs - by a token the tokenizer hands out without
+            flushing its stashed `async` (error-token characters such as backquote, NUL, control characters; also strings,
+            `$NAME`): the two tokens come out in swapped order, `async` turns up behind the other text
     C18-F22 f-string with a doubled brace: the tokenizer hands out the un-doubled text, prefix/suffix lose a character
     C18-F21 still-open single-line string ending in a lone backslash: the backslash is reported as closing_quote
     C18-F19 cursor inside a sub-expression opener (`$(` `![` `@(` ...) that directly follows a continuation glued to a
@@ -1080,21 +1108,46 @@ def _classify_b(text, cursor, kind, info):
         return "C18-F6"
     if kind == "hang@tokenize.py:_tokenize" and _fstring_newline_shape(text):
         return "C18-F7"
-    if kind in ("prefix", "suffix") and cursor > 0 and text[cursor - 1:cursor + 1] == "\\\n":
-        return "C18-F8"
+    if kind in ("prefix", "suffix") and _undoubling_explains(text, cursor, kind, info):
+        return "C18-F22"        # before F9: exactly the lost brace
     if kind in ("prefix", "suffix") and _inside_closing_triple(text, cursor) and len(info.get("closing_quote", "")) == 3 \
             and not info.get("after"):
         return "C18-F9"
     if kind == "quote-fields" and info.get("closing_quote") == "\\":
         return "C18-F21"
-    if kind in ("prefix", "suffix") and _FSTR_RE.search(text) and ("{{" in text or "}}" in text):
-        return "C18-F22"
-    if kind in ("prefix", "suffix") and re.search(r"async[^\w \t\n]", text):
+    mf = _FSTR_RE.search(text) if kind in ("prefix", "suffix") else None
+    if mf is not None and ("{{" in text[mf.end():] or "}}" in text[mf.end():]):
+        return "C18-F22"        # (offsets behind the doubled brace shift: a character is lost, repeated or misplaced)
+    if kind in ("prefix", "suffix") and cursor > 0 and text[cursor - 1:cursor + 1] == "\\\n":
+        return "C18-F8"         # after F22: a cursor inside a continuation behind a doubled brace is still F22
+    if kind in ("prefix", "suffix") and re.search(r"async[ \t]*[^\w \t\n]", text) \
+            and "async" in info.get("prefix", "") + info.get("suffix", ""):
         return "C18-F23"
     if kind in ("prefix", "suffix") and "\\\n" in text[:cursor] and text[cursor - 1:cursor] in ("@", "$", "!") \
             and text[cursor:cursor + 1] in ("(", "[", "$", "!"):
         return "C18-F19"
     return None
+
+
+def _undoubling_explains(text, cursor, kind, info):
+    """C18-F22, exactly: an f-string with `{{` / `}}` is in the text and the reported prefix (suffix) is the text
+    before (after) the cursor with doubled braces written once (continuations as in the oracle)."""
+    mf = _FSTR_RE.search(text)
+    if mf is None or ("{{" not in text[mf.end():] and "}}" not in text[mf.end():]):
+        return False
+    und = lambda t: t.replace("{{", "{").replace("}}", "}")  # noqa: E731
+    before, after = text[:cursor], text[cursor:]
+    if kind == "suffix":
+        sfx = info.get("suffix", "")
+        cands = [und(after)]
+        if before.endswith("\\") and after[:1] == "\n":
+            cands.append(und(after[1:]))            # cursor inside a continuation: either reading (as in analyse)
+        return any(starts_mod_cont(a, sfx) for a in cands)
+    want = info.get("opening_quote", "") + info.get("prefix", "") + (info.get("closing_quote", "") if info.get("after") else "")
+    cands = [und(before)]
+    if before.endswith("\\") and after[:1] == "\n":
+        cands.append(und(before[:-1]))
+    return any(ends_mod_cont(b, want) for b in cands)
 
 
 def _inside_closing_triple(text, cursor):
@@ -1413,7 +1466,7 @@ def main(run):
         "a candidate may spell the entry differently from what was typed (r'~' for ./~; a trailing / for directories; pathlib's spelling for p-strings)",
         "dot files are not expected for an empty name prefix ($DOTGLOB)",
         "Part B: cursor positions 0..len(text); the text does not start with a byte-order mark; prefix/suffix are compared with the text as it "
-        "stands or with backslash-newline removed on either side; a cursor between the backslash and the newline of a continuation may be "
+        "stands or with any subset of its backslash-newline pairs removed on either side; a cursor between the backslash and the newline of a continuation may be "
         "attributed to either side; hang bound 3 CPU-seconds per parse, re-confirmed with 6",
     ]
 
@@ -1428,6 +1481,10 @@ def replay(run, path):
     os.chdir(common.VERIF)
     if fail is None:
         print("replay: property holds on this case")
+        return 0
+    if fail.finding and fail.finding in run.known_open:
+        # a recorded, open finding reproduces on this case (narrow predicate): that is not a violation
+        print("KNOWN-FINDING: property=%s %s kind=%s %s" % (PROP, fail.finding, fail.kind, common._oneline(fail.detail)))
         return 0
     print("VIOLATION property=%s replay=%s kind=%s %s" % (PROP, path, fail.kind, common._oneline(fail.detail)))
     return 1
